@@ -249,6 +249,12 @@ theorem before_inv (d : Data) (song : Song) (n : Nat) :
     rw [this.1, this.2]; exact clockInv_init
   exact runSteps_inv d song n _ 0 0 h0 (by unfold Counted; simp)
 
+/-- data bytes written to the YM2612 key register 0x28 (port 0), in order -/
+def keyData : List Vgm.Op → List Nat
+  | [] => []
+  | .write 0x52 _ 0x28 dat :: r => dat :: keyData r
+  | _ :: r => keyData r
+
 /-! ### the tempo accumulator -/
 theorem pow_shift : (2 : Nat) ^ md_tempo_shift = 128 := by decide
 
